@@ -388,15 +388,31 @@ package gates
 //@   loop 0 invariant forall(k, 0, rangeindex + 1, unfiltered[k] == qe_mulo(atentry(unfiltered, 0)[k], filter))
 //@   loop 0 invariant forall(k, rangeindex + 1, len(unfiltered), unfiltered[k] == atentry(unfiltered, 0)[k])
 
-// The combined evaluation: every gate of the circuit contributes (loop 1 calls evalFiltered in every iteration) and
-// its filtered constraints are added position-wise into a vector of numGateConstraints canonical values.  The closed
-// form of the sum over gates is not stated (it needs a ghost sequence of per-gate vectors).
+// The combined evaluation (plonky2 evaluate_gate_constraints): constraint j of the result is the sum, over the gates
+// in order, of filtered constraint j of every gate that has one (gates with fewer constraints contribute nothing at j).
+// gfl / gf0 / gf1 are ghost functions: gfl(i) is the length and (gf0(i,j), gf1(i,j)) the j-th element of the vector
+// evalFiltered returned for gate i (a `let_at_call` definition at the call site in the loop; evalFiltered's own contract
+// says what that vector is: the gate's unfiltered constraints times plonky2's selector filter).
+//@ opaque def gfl(i) = 0
+//@ opaque def gf0(i, j) = 0
+//@ opaque def gf1(i, j) = 0
+//@ recdef gsum(j int, k int) QE = ite(k <= 0, tuple(0, 0), ite(j < gfl(k - 1), qe_addo(gsum(j, k - 1), tuple(gf0(k - 1, j), gf1(k - 1, j))), gsum(j, k - 1)))
 //@ func (g *EvaluateGatesChip) EvaluateGateConstraints(vars EvaluationVars) (res []gl.QuadraticExtensionVariable)
 //@   props C15 C01
 //@   circuit sound-only
 //@   requires canonQEs(vars.localConstants) && canonQEs(vars.localWires) && g.numGateConstraints <= 4294967296 && sel_small(g.selectorsInfo)
 //@   ensures len(res) == g.numGateConstraints && canonQEs(res)
-//@   loop 0 invariant -1 <= rangeindex && rangeindex < g.numGateConstraints && len(constraints) == g.numGateConstraints && forall(k, 0, rangeindex + 1, canonQE(constraints[k]))
+//@   ensures forall(j, 0, g.numGateConstraints, res[j] == gsum(j, len(g.gates)))
+//@   ensures forall(i, 0, len(g.gates), 0 <= gfl(i) && gfl(i) <= g.numGateConstraints)
+//@   loop 0 invariant -1 <= rangeindex && rangeindex < g.numGateConstraints && len(constraints) == g.numGateConstraints && forall(k, 0, rangeindex + 1, constraints[k] == tuple(0, 0))
 //@   loop 1 calls gates.EvaluateGatesChip.evalFiltered
+//@   let_at_call gates.EvaluateGatesChip.evalFiltered#0 len(ret) == gfl(rangeindex1 + 1) && forall(j, 0, len(ret), ret[j] == tuple(gf0(rangeindex1 + 1, j), gf1(rangeindex1 + 1, j)))
+//@   at_call gates.EvaluateGatesChip.evalFiltered#0 arg_row == rangeindex1 + 1 && arg_selectorIndex == g.selectorsInfo.selectorIndices[rangeindex1 + 1] && arg_groupRange == g.selectorsInfo.groups[g.selectorsInfo.selectorIndices[rangeindex1 + 1]] &&
+//@        arg_numSelectors == len(g.selectorsInfo.groups) && len(arg_vars.localWires) == len(vars.localWires) && len(arg_vars.localConstants) == len(vars.localConstants)
 //@   loop 1 invariant -1 <= rangeindex1 && rangeindex1 < len(g.gates) && len(constraints) == g.numGateConstraints && canonQEs(constraints) && chipok(glApi)
+//@   loop 1 invariant forall(j, 0, g.numGateConstraints, constraints[j] == gsum(j, rangeindex1 + 1))
+//@   loop 1 invariant forall(i, 0, rangeindex1 + 1, 0 <= gfl(i) && gfl(i) <= g.numGateConstraints)
 //@   loop 2 invariant -1 <= rangeindex2 && rangeindex2 < len(gateConstraints) && len(constraints) == g.numGateConstraints && canonQEs(constraints) && canonQEs(gateConstraints) && chipok(glApi)
+//@   loop 2 invariant rangeindex2 < g.numGateConstraints && len(gateConstraints) == gfl(rangeindex1 + 1) && forall(j, 0, len(gateConstraints), gateConstraints[j] == tuple(gf0(rangeindex1 + 1, j), gf1(rangeindex1 + 1, j)))
+//@   loop 2 invariant forall(j, 0, rangeindex2 + 1, constraints[j] == qe_addo(gsum(j, rangeindex1 + 1), gateConstraints[j]))
+//@   loop 2 invariant forall(j, rangeindex2 + 1, g.numGateConstraints, constraints[j] == gsum(j, rangeindex1 + 1))
